@@ -8,6 +8,7 @@ import (
 	"math"
 	"math/rand"
 	"strings"
+	"sync"
 	"time"
 
 	"golang.org/x/tools/go/ssa"
@@ -78,6 +79,7 @@ type Interp struct {
 	deadline     time.Time
 	inPath       bool
 	intDiffOK    int
+	badModels    int
 	rng          *rand.Rand
 	observed     []string
 	deferMemo    map[*ssa.Function]bool
@@ -465,6 +467,20 @@ func (in *Interp) runBlocks(fr *Frame, start *ssa.BasicBlock) Value {
 			switch x := instr.(type) {
 			case *ssa.If:
 				c := in.get(fr, x.Cond).(*Term)
+				if !c.IsConst() && !fr.tolerant {
+					// collapse pure or-/and-chains (switch with several values per
+					// case, a && b && c) into one decision
+					if mc, from, tgt, other, ok := in.mergeChain(fr, b, c); ok {
+						fr.prev = from
+						if in.branch(mc) {
+							next = tgt
+						} else {
+							next = other
+						}
+						b = nil // fr.prev already set
+						break
+					}
+				}
 				if in.branch(c) {
 					next = b.Succs[0]
 				} else {
@@ -491,9 +507,148 @@ func (in *Interp) runBlocks(fr *Frame, start *ssa.BasicBlock) Value {
 		if next == nil {
 			panic("block without terminator")
 		}
-		fr.prev = b
+		if b != nil {
+			fr.prev = b
+		}
 		b = next
 	}
+}
+
+// mergeChain: starting at block b whose terminator is `if c goto S0 else S1`
+// with symbolic c, follows successor blocks that (a) have b as their only
+// predecessor, (b) contain only pure scalar computations and (c) end in an If
+// sharing one target with the chain so far. Returns the merged condition for
+// "go to the shared target", the last chain block (a predecessor of both
+// outcomes), the shared target and the other outcome.
+func (in *Interp) mergeChain(fr *Frame, b *ssa.BasicBlock, c *Term) (*Term, *ssa.BasicBlock, *ssa.BasicBlock, *ssa.BasicBlock, bool) {
+	type attempt struct {
+		tgtIdx int // index of the shared target in Succs (0: or-chain, 1: and-chain)
+	}
+	for _, a := range []attempt{{0}, {1}} {
+		tgt := b.Succs[a.tgtIdx]
+		cont := b.Succs[1-a.tgtIdx]
+		cur := b
+		// condition for reaching tgt
+		cond := c
+		if a.tgtIdx == 1 {
+			cond = in.tb.Not(c)
+		}
+		merged := 0
+		for merged < 64 {
+			if len(cont.Preds) != 1 || cont == tgt || !phisAgree(tgt, cur, cont) {
+				break
+			}
+			nif, ok := pureBlockIf(cont)
+			if !ok || nif.Block().Succs[a.tgtIdx] != tgt {
+				break
+			}
+			// evaluate the pure instructions of cont
+			for _, instr := range cont.Instrs[:len(cont.Instrs)-1] {
+				if v, ok := instr.(ssa.Value); ok {
+					fr.env[v] = in.evalValue(fr, v)
+				}
+			}
+			nc, ok := in.get(fr, nif.Cond).(*Term)
+			if !ok {
+				break
+			}
+			if a.tgtIdx == 1 {
+				nc = in.tb.Not(nc)
+			}
+			cond = in.tb.Or(cond, nc)
+			cur = cont
+			cont = cont.Succs[1-a.tgtIdx]
+			merged++
+		}
+		if merged > 0 {
+			return cond, cur, tgt, cont, true
+		}
+	}
+	return nil, nil, nil, nil, false
+}
+
+// phisAgree: every phi of tgt takes the same value along the edges from p1 and p2.
+func phisAgree(tgt, p1, p2 *ssa.BasicBlock) bool {
+	i1, i2 := -1, -1
+	for i, p := range tgt.Preds {
+		if p == p1 {
+			i1 = i
+		}
+		if p == p2 {
+			i2 = i
+		}
+	}
+	if i1 < 0 || i2 < 0 {
+		return false
+	}
+	for _, instr := range tgt.Instrs {
+		phi, ok := instr.(*ssa.Phi)
+		if !ok {
+			break
+		}
+		e1, e2 := phi.Edges[i1], phi.Edges[i2]
+		if e1 == e2 {
+			continue
+		}
+		c1, ok1 := e1.(*ssa.Const)
+		c2, ok2 := e2.(*ssa.Const)
+		if ok1 && ok2 && c1.Value != nil && c2.Value != nil && types.Identical(c1.Type(), c2.Type()) && c1.Value.ExactString() == c2.Value.ExactString() {
+			continue
+		}
+		return false
+	}
+	return true
+}
+
+var pureBlockMemo sync.Map
+
+// pureBlockIf: the block consists of side-effect-free, panic-free scalar
+// computations followed by an If.
+func pureBlockIf(b *ssa.BasicBlock) (*ssa.If, bool) {
+	if v, ok := pureBlockMemo.Load(b); ok {
+		r := v.(*ssa.If)
+		return r, r != nil
+	}
+	res := func() *ssa.If {
+		n := len(b.Instrs)
+		if n == 0 {
+			return nil
+		}
+		nif, ok := b.Instrs[n-1].(*ssa.If)
+		if !ok {
+			return nil
+		}
+		for _, instr := range b.Instrs[:n-1] {
+			switch x := instr.(type) {
+			case *ssa.BinOp:
+				switch x.Op {
+				case token.QUO, token.REM, token.SHL, token.SHR:
+					return nil
+				}
+				if !scalarType(x.X.Type()) {
+					return nil
+				}
+			case *ssa.UnOp:
+				if x.Op != token.NOT && x.Op != token.SUB && x.Op != token.XOR {
+					return nil
+				}
+			case *ssa.Convert:
+				if !scalarType(x.Type()) || !scalarType(x.X.Type()) {
+					return nil
+				}
+			case *ssa.ChangeType:
+				if !scalarType(x.Type()) {
+					return nil
+				}
+			case *ssa.DebugRef:
+			default:
+				return nil
+			}
+		}
+		return nif
+	}()
+	pureBlockMemo.Store(b, res)
+	return res, res != nil
 }
 
 // execSimple executes a non-control-flow instruction.
